@@ -378,6 +378,42 @@ Proof.
     destruct (Z.eqb p new) eqn:E; [apply Z.eqb_eq in E; subst; contradiction|]. auto.
 Qed.
 
+(* the same, saying which block a predecessor became *)
+Lemma insert_preds_spec2 new S : forall preds g g',
+  NoDup preds ->
+  insert_preds g new S preds = Ok g' ->
+  forall p, In p preds -> exists b b', efind g p = Some b /\ efind g' p = Some b' /\
+       replace_jt b (retarget new S (e_jt b)) = Some b'.
+Proof.
+  induction preds as [|p rest IH]; intros g g' Hnd; simpl.
+  - intros [= <-] p [].
+  - inversion Hnd as [|? ? Hnp Hnd']; subst.
+    destruct (dpop g p) as [[b g1]|] eqn:Hp; [|discriminate].
+    destruct (replace_jt b (retarget new S (e_jt b))) as [b'|] eqn:Hr; [|discriminate].
+    intros H. destruct (insert_preds_spec new S rest _ _ Hnd' H) as [A _].
+    assert (Hfind : forall x, efind (dset g1 p b') x = if Z.eqb x p then Some b' else efind g x).
+    { intros x. unfold efind. rewrite zassoc_dset. destruct (Z.eqb x p) eqn:E; [reflexivity|].
+      apply Z.eqb_neq in E. eapply zassoc_dpop; eauto. }
+    intros q [<-|Hq].
+    + exists b, b'. split; [eapply dpop_value; eauto|].
+      rewrite A by exact Hnp. rewrite Hfind, Z.eqb_refl. split; [reflexivity|exact Hr].
+    + destruct (IH _ _ Hnd' H q Hq) as [b0 [b0' [H1 [H2 H3]]]].
+      exists b0, b0'. rewrite Hfind in H1.
+      destruct (Z.eqb q p) eqn:E; [apply Z.eqb_eq in E; subst; contradiction|]. auto.
+Qed.
+
+Theorem insert_block_spec2 g new preds S cls g' :
+  NoDup preds -> ~ In new preds ->
+  insert_block g new preds S cls = Ok g' ->
+  forall p, In p preds -> exists b b', efind g p = Some b /\ efind g' p = Some b' /\
+       replace_jt b (retarget new S (e_jt b)) = Some b'.
+Proof.
+  unfold insert_block. intros Hnd Hnew H p Hp.
+  destruct (insert_preds_spec2 new S preds _ _ Hnd H p Hp) as [b [b' [H1 [H2 H3]]]].
+  exists b, b'. split; [|auto]. unfold efind in *. rewrite zassoc_dset in H1.
+  destruct (Z.eqb p new) eqn:E; [apply Z.eqb_eq in E; subst; contradiction|exact H1].
+Qed.
+
 (* ---------- join_returns ---------- *)
 Definition exits_of (g : egraph) : list name :=
   map fst (filter (fun p => match ejts (snd p) with [] => true | _ => false end) g).
